@@ -242,7 +242,7 @@ def build_model_driver():
                 shutil.copy(os.path.join(VERIF, "ocaml", f), oc)
         if os.path.exists(rvm):
             os.remove(rvm)
-        rc, out, _ = sh("ocamlfind ocamlopt -O3 -w -a -package unix -linkpkg model.mli model.ml conv.ml str_find.ml extops.ml memdrv.ml extra.ml driver.ml -o rvm 2>&1",
+        rc, out, _ = sh("ocamlfind ocamlopt -O3 -w -a -package unix -linkpkg model.mli model.ml conv.ml str_find.ml extops.ml memdrv.ml lin.ml extra.ml driver.ml -o rvm 2>&1",
                         cwd=oc, check=False)
         if rc != 0 or not os.path.exists(rvm):
             raise CheckError("OCaml driver does not build:\n" + out[-3000:])
